@@ -101,7 +101,7 @@ impl Context {
 //@@ endfn
 
 //@@ fn ctx.with_result = src/processor.rs :: impl Context :: fn with_result
-//@@ safety C12 C13 C15 C19
+//@@ safety C12 C13 C15 C19 C03 C09 C10
 //@@ ret r
 //@@ header-from specs/ctx/with_result.spec
 //@@ endfn
